@@ -17,6 +17,9 @@ extern void __real_free(void *);
 #define hcalloc(a, b) __real_calloc(a, b)
 #define hfree(p) __real_free(p)
 
+void *vx_malloc(size_t n) { return __real_malloc(n ? n : 1); }
+void vx_free(void *p) { __real_free(p); }
+
 static void hdie(const char *fmt, ...) {
   va_list ap; va_start(ap, fmt);
   fprintf(stderr, "HARNESS-ERROR: "); vfprintf(stderr, fmt, ap); fprintf(stderr, "\n");
